@@ -597,3 +597,54 @@ def base_instance_state(ctx) -> None:
                f"{bad[0]}, which {C.name}.__init__ never calls: an operator built directly or by arithmetic has no such "
                f"attribute (AttributeError, e.g. when Pulser deep-copies the observables of a config)")
     ctx.require(n >= 3, f"APICOMPAT-basestate: only {n} repository classes with Pulser-created instance state")
+
+
+def interaction_matrix_rank(ctx) -> None:
+    """Producer/consumer agreement on the rank of the per-trajectory interaction matrix.  The installed pulser-core builds
+    it in HamiltonianData._interaction_matrix; the repo consumes `samples.trajectory.interaction_matrix.as_tensor()` in
+    PulserData.get_sequences as an (N, N) matrix (row/column masking with two index positions, a cut-off mask, then
+    HamiltonianMPOFactors._validate_interaction_matrix insists on ndim == 2).  If the producer adds a leading axis
+    (`d.reshape((1,) + d.shape)`: one (N, N) block per interaction kind) the consumer must select a block first."""
+    prog = ctx.prog
+    P = util.pulser_program()
+    prod = None
+    for q, f in P.funcs.items():
+        if q.endswith("HamiltonianData._interaction_matrix"):
+            prod = f
+    g = prog.func("emu_base.pulser_adapter.PulserData.get_sequences")
+    if prod is None:
+        ctx.ob("APICOMPAT-rank", "trajectory interaction matrix", g.loc(), True,
+               "the installed pulser-core has no HamiltonianData._interaction_matrix: producer layout not decided (older layout)")
+        return
+    # producer rank: the returned array starts as zeros_like(d.reshape((1,) + d.shape)) with d = _distances(register)
+    lead = False
+    for n in ast.walk(prod.node):
+        if isinstance(n, ast.Call) and isinstance(n.func, ast.Attribute) and n.func.attr == "reshape" and n.args:
+            a = n.args[0]
+            if isinstance(a, ast.BinOp) and isinstance(a.op, ast.Add) and isinstance(a.left, ast.Tuple) and len(a.left.elts) == 1 \
+                    and isinstance(a.right, ast.Attribute) and a.right.attr == "shape":
+                lead = True
+    stacked = any(isinstance(n, ast.Call) and util.text(n.func).endswith("vstack") for n in ast.walk(prod.node))
+    # consumer: is a block selected from the trajectory's matrix before it is used as (N, N)?
+    selects = False
+    raw = False
+    for n in ast.walk(g.node):
+        if isinstance(n, ast.Call) and isinstance(n.func, ast.Attribute) and n.func.attr == "as_tensor" and \
+                "trajectory.interaction_matrix" in util.text(n.func.value):
+            raw = True
+    for n in ast.walk(g.node):
+        if isinstance(n, ast.Subscript) and "trajectory.interaction_matrix" in util.text(n.value) and \
+                isinstance(n.slice, (ast.Constant, ast.UnaryOp)):
+            selects = True
+        if isinstance(n, ast.Call) and isinstance(n.func, ast.Attribute) and n.func.attr in ("squeeze", "select") and \
+                "trajectory.interaction_matrix" in util.text(n.func.value):
+            selects = True
+    ctx.require(raw or selects, "APICOMPAT-rank: get_sequences no longer reads samples.trajectory.interaction_matrix")
+    ok = not lead or selects
+    ctx.ob("APICOMPAT-rank", "trajectory interaction matrix", g.loc(), ok,
+           ("the installed pulser-core builds an (N, N) matrix" if not lead else
+            "the consumer selects one (N, N) block of the (k, N, N) array") if ok else
+           f"the installed pulser-core builds NoiseTrajectory.interaction_matrix with a leading axis "
+           f"({prod.module.relpath}:{prod.node.lineno}: reshape((1,) + d.shape){', vstack for XY' if stacked else ''}) — shape (1, N, N) "
+           f"resp. (2, N, N) — but get_sequences uses as_tensor() as an (N, N) matrix: masking hits the wrong axes and "
+           f"make_H/_validate_interaction_matrix (ndim must be 2) rejects it, so no run through PulserData succeeds")
